@@ -33,7 +33,7 @@ def export_behaviours(ctx: core.Ctx, kind: str, depth: int, setters: bool = Fals
     finally:
         env.cleanup(sdir)
     behs = [b["steps"] for b in r.by_tag("BEH")]
-    ncalls = (19 if setters else 15) if kind == "single" else 6
+    ncalls = (22 if setters else 15) if kind == "single" else 6
     if len(behs) != ncalls**depth:
         raise tlc.MachineryError(f"expected {ncalls**depth} exported histories for {kind}, got {len(behs)}")
     return behs
@@ -187,7 +187,7 @@ def random_call(rng, kind, setters=False):
         g = str(rng.choice(["A", "B", "C"]))
         s = "none"
         if kind == "single" and rng.random() < 0.5:
-            s = str(rng.choice(["S", "K", "O", "KA"] if setters else ["S", "K", "O"]))
+            s = str(rng.choice(["S", "K", "O", "KA", "E"] if setters else ["S", "K", "O"]))
         return {"op": "simulate", "grid": g, "sched": s}
     if r < 0.75:
         return {"op": "rf", "mode": str(rng.choice(["flux", "density"]))}
